@@ -155,6 +155,7 @@ def dispatch (op : String) (args : List Sexp) : String :=
   | "gdsraw.flat" => opGdsRawFlat args
   | "rawproto.export" => opRawProtoExport args
   | "rawproto.import" => opRawProtoImport args
+  | "rawproto.seq" => "unsupported"
   | "lef.lex" => opLefLex args
   | "lef.states" => opLefStates args
   | "lef.enum" => opLefEnum args
